@@ -33,6 +33,17 @@ var collidePaths = []string{"a.b/x", "c.d/x", "e.f/x", "g.h/x", "i.j/X", "k.l/x/
 // c07Recipe builds the File of recipe (kind, seed) by a sequence of calls that is a pure function of
 // its arguments. It returns the size of the smallest map involved and a short description.
 func c07Recipe(kind int, seed int64, rec *visitRec) (f *jen.File, smallest int, desc string) {
+	f, smallest, desc = c07RecipeFormatted(kind, seed, rec)
+	if uint64(seed)%3 == 0 {
+		// gofmt sorts import blocks and aligns composite literals on its own, which can hide an order that
+		// jennifer left to chance: a third of the recipes are rendered raw
+		f.NoFormat = true
+		desc += " (NoFormat)"
+	}
+	return
+}
+
+func c07RecipeFormatted(kind int, seed int64, rec *visitRec) (f *jen.File, smallest int, desc string) {
 	r := rand.New(rand.NewSource(seed))
 	switch kind {
 	case 0: // Dict whose keys/values contain qualified identifiers competing for aliases
@@ -109,6 +120,9 @@ func c07Recipe(kind int, seed int64, rec *visitRec) (f *jen.File, smallest int, 
 			f.PackagePrefix = "pk"
 		}
 		n := 2 + r.Intn(29)
+		if r.Intn(2) == 0 {
+			n = 2 + r.Intn(6) // small import blocks: every size 2..7 is common
+		}
 		m := map[string]string{}
 		var paths []string
 		for i := 0; i < n; i++ {
@@ -127,7 +141,11 @@ func c07Recipe(kind int, seed int64, rec *visitRec) (f *jen.File, smallest int, 
 				f.Var().Id(fmt.Sprintf("v%d", i)).Op("=").Qual(p, "S")
 			}
 		}
-		return f, len(m), fmt.Sprintf("importnames[%d hints, %d paths]", len(m), n)
+		small := len(m)
+		if n < small || small < 2 {
+			small = n
+		}
+		return f, small, fmt.Sprintf("importnames[%d hints, %d paths]", len(m), n)
 	case 3: // import scenarios (hints in maps, Dict contexts, dot imports…)
 		k := scen.DefaultKnobs()
 		k.MaxPaths = 12
